@@ -35,9 +35,30 @@ func main() {
 	list := flag.Bool("list", false, "list properties with rules")
 	only := flag.String("only", "", "print only obligations whose key contains this (replay)")
 	verbose := flag.Bool("v", false, "print every obligation")
+	dump := flag.String("calls", "", "debug: pkg:Func — print the callee ids and argument descriptions of a function and exit")
 	flag.Parse()
 	if *list {
 		fmt.Println(strings.Join(rules.All(), " "))
+		return
+	}
+	if *dump != "" {
+		parts := strings.SplitN(*dump, ":", 2)
+		c := engine.NewCtx("dbg", "quick")
+		if err := c.Load(parts[0]); err != nil {
+			fmt.Println(err)
+			os.Exit(2)
+		}
+		fn := c.Func(parts[0], parts[1])
+		for _, f := range engine.WithAnon(fn) {
+			fmt.Println("==", engine.FuncID(f))
+			for _, call := range engine.Calls(f) {
+				var as []string
+				for _, a := range engine.Args(call.Common()) {
+					as = append(as, engine.Describe(a))
+				}
+				fmt.Printf("  %s  %s(%s)\n", c.Position(call.Pos()), engine.CalleeID(call.Common()), strings.Join(as, ", "))
+			}
+		}
 		return
 	}
 	r := rules.Get(*prop)
